@@ -21,7 +21,7 @@ import (
 	"verif/harness/hlib"
 )
 
-const guard = 10 * time.Second
+const guard = 5 * time.Second
 
 type seq struct {
 	r   *hlib.Run
@@ -35,6 +35,7 @@ type seq struct {
 	wpend                chan string
 	wrest                int
 	hangs                int
+	abort                bool // the implementation contradicted the harness prediction: end the case
 	nops                 int
 	key                  string
 }
@@ -58,6 +59,7 @@ func (s *seq) newCase(c int) {
 	s.closed, s.wc, s.rto, s.wto = false, false, false, false
 	s.key = "c" + strconv.Itoa(c)
 	s.nops = 0
+	s.abort = false
 	s.r.Raw("# case")
 	s.r.Emit("new "+strconv.Itoa(c), "ok")
 }
@@ -73,10 +75,11 @@ func (s *seq) endCase() {
 	s.r.Case(s.key)
 }
 
-func (s *seq) emit(lhs, res string, withState bool) {
-	st := "-"
-	if withState {
-		st = s.stateOrDash()
+// quiescent = no woken goroutine can still be running (poll lines): report r,w,len even with a parked call
+func (s *seq) emit(lhs, res string, quiescent bool) {
+	st := s.stateOrDash()
+	if quiescent {
+		st = s.state()
 	}
 	s.r.Emit(lhs, res+"|"+st)
 	s.key += ";" + lhs + ">" + res
@@ -156,12 +159,15 @@ func (s *seq) read(n int) {
 	ch := s.startRead(n)
 	res, done := s.await(ch, park)
 	s.r.Count("read:" + kind(res))
+	if park != (res == "block") {
+		s.abort = true
+	}
 	if !done && res == "block" {
 		s.rpend, s.rpendN = ch, n
 	}
 	s.q -= dataLen(res)
 	hadW := s.wpend != nil
-	s.emit("read "+strconv.Itoa(n), res, true)
+	s.emit("read "+strconv.Itoa(n), res, false)
 	if hadW {
 		s.settleW(true)
 	}
@@ -177,12 +183,15 @@ func (s *seq) write(b []byte) {
 	ch := s.startWrite(b)
 	res, done := s.await(ch, park)
 	s.r.Count("write:" + kind(res))
+	if park != (res == "block") {
+		s.abort = true
+	}
 	s.q += copied
 	if !done && res == "block" {
 		s.wpend, s.wrest = ch, len(b)-copied
 	}
 	hadR := s.rpend != nil
-	s.emit("write "+hlib.Hex(b), res, true)
+	s.emit("write "+hlib.Hex(b), res, false)
 	if hadR {
 		s.settleR(copied > 0)
 	}
@@ -296,7 +305,7 @@ func (s *seq) flag(op string) {
 	}
 	s.r.Count("flag:" + op)
 	hadR, hadW := s.rpend != nil, s.wpend != nil
-	s.emit(op, "ok", true)
+	s.emit(op, "ok", false)
 	if hadR {
 		s.settleR(wakeR)
 	}
@@ -357,10 +366,13 @@ func (s *seq) randomCase(rng *hlib.Rng, ctr *byte) {
 		}
 	}
 	after := -1
-	for i := 0; i < nops && s.hangs < 2; i++ {
-		if s.closed {
+	for i := 0; i < nops && s.hangs == 0 && !s.abort; i++ {
+		if s.closed || s.wc {
 			if after < 0 {
 				after = 3
+				if !s.closed {
+					after = 8
+				}
 			}
 			after--
 			if after < 0 {
@@ -421,7 +433,7 @@ func (s *seq) systematic(maxCap int) {
 			for f := 0; f <= c; f++ {
 				for L := 0; L <= c+2; L++ {
 					for n := 0; n <= c+1; n += 1 {
-						if s.hangs >= 2 {
+						if s.hangs > 0 {
 							return
 						}
 						s.newCase(c)
@@ -433,19 +445,20 @@ func (s *seq) systematic(maxCap int) {
 							s.write(mk(f))
 						}
 						s.write(mk(L)) // parks when f+L > c
-						s.read(n)      // wakes the parked writer
-						if s.rpend == nil {
-							s.read(c)
+						steps := []func(){
+							func() { s.read(n) }, // wakes the parked writer
+							func() { s.read(c) }, func() { s.read(c) },
+							func() { s.flag("closew") },
+							func() { s.read(c) }, func() { s.read(c) },
 						}
-						if s.rpend == nil {
-							s.read(c)
-						}
-						s.flag("closew")
-						if s.rpend == nil {
-							s.read(c)
-						}
-						if s.rpend == nil {
-							s.read(c)
+						for i, f := range steps {
+							if s.abort || s.hangs > 0 {
+								break
+							}
+							if s.rpend != nil && i != 3 {
+								continue
+							}
+							f()
 						}
 						s.r.Count("systematic")
 						s.endCase()
@@ -458,7 +471,7 @@ func (s *seq) systematic(maxCap int) {
 
 // ---------- concurrent part ----------
 
-func stream(r *hlib.Run, rng *hlib.Rng) {
+func stream(r *hlib.Run, rng *hlib.Rng) string {
 	c := hlib.Pick(rng, caps)
 	if rng.Chance(30) {
 		c = 1 + rng.Intn(64)
@@ -555,9 +568,10 @@ func stream(r *hlib.Run, rng *hlib.Rng) {
 	r.Emit(lhs, res)
 	r.Case(lhs)
 	r.Count("stream:w=" + wres + ",r=" + rres)
+	return res
 }
 
-func deadline(r *hlib.Run, rng *hlib.Rng) {
+func deadline(r *hlib.Run, rng *hlib.Rng) string {
 	c := 1 + rng.Intn(16)
 	c1, c2 := bufconn.BufferedPipe(c)
 	defer c1.Close()
@@ -588,6 +602,7 @@ func deadline(r *hlib.Run, rng *hlib.Rng) {
 	r.Emit("deadline "+which+" "+strconv.Itoa(c), res)
 	r.Case("")
 	r.Count("deadline:" + which)
+	return res
 }
 
 var _ net.Conn
@@ -622,15 +637,20 @@ func main() {
 	}
 	s.systematic(maxSys)
 	ctr := byte(0)
-	for i := 0; i < nrand && s.hangs < 2; i++ {
+	for i := 0; i < nrand && s.hangs == 0; i++ {
 		s.randomCase(rng, &ctr)
 	}
 	s.cleanup()
-	for i := 0; i < nstream; i++ {
-		stream(r, rng)
+	hung := s.hangs
+	for i := 0; i < nstream && hung == 0; i++ {
+		if stream(r, rng) == "hang" {
+			hung++
+		}
 	}
-	for i := 0; i < ndl; i++ {
-		deadline(r, rng)
+	for i := 0; i < ndl && hung == 0; i++ {
+		if deadline(r, rng) == "hang" {
+			hung++
+		}
 	}
 	r.Finish()
 }
